@@ -64,7 +64,10 @@ fn prepare(case: &Case) -> Option<Prepared> {
             let p = parse_rs(schema)?;
             let mut tr = Some(vec![]);
             let mut bytes = vec![];
-            refimpl::encode_t(value, schema, &p.defs, &mut bytes, &mut tr);
+            // one pair in three: arrays and maps written as several blocks of 1-2 items (also in
+            // the negative-count form), a valid encoding this crate's Value encoder never produces
+            let split = if case.salt % 3 == 0 { 1 + (case.salt / 3 % 2) as usize } else { 0 };
+            refimpl::with_block_split(split, || refimpl::encode_t(value, schema, &p.defs, &mut bytes, &mut tr));
             let expected = to_avro(value, schema, &p.defs);
             Some(Prepared { schema: p.schema, rs: Some((schema.clone(), p.defs)), bytes, expected, leaf: tr.unwrap() })
         }
